@@ -12,6 +12,7 @@ from sourcer import expressions as ex  # noqa: E402
 from sourcer.expressions.base import Expression  # noqa: E402
 from sourcer.expressions.constants import POS, RESULT, STATUS, TEXT  # noqa: E402
 from sourcer import translator  # noqa: E402
+from . import locate  # noqa: E402
 
 # admissible child flag pairs (always_succeeds, can_partially_succeed)
 FLAGS = [(True, False), (False, False), (False, True)]
@@ -58,20 +59,20 @@ def stubs(flag_tuple, first=1):
 def emit(expr, uses_context=False, max_num_blocks=None, precompile=True):
     """run the real generator on `expr`; returns the emitted python text"""
     out = CodeBuilder() if max_num_blocks is None else CodeBuilder(max_num_blocks=max_num_blocks)
-    translator._assign_ids([expr])
+    locate.assign_ids()([expr])
     if precompile:
         ex.visit(expr, lambda x: x.precompile(out))
-    expr.compile(out, translator._Flags(uses_context))
+    expr.compile(out, locate.Flags(uses_context))
     return out.source_code()
 
 
 def emit_with_names(expr, uses_context=False, max_num_blocks=None, precompile=True):
     """as emit(); also returns the set of temporaries handed out by CodeBuilder.var during generation"""
     out = CodeBuilder() if max_num_blocks is None else CodeBuilder(max_num_blocks=max_num_blocks)
-    translator._assign_ids([expr])
+    locate.assign_ids()([expr])
     if precompile:
         ex.visit(expr, lambda x: x.precompile(out))
-    expr.compile(out, translator._Flags(uses_context))
+    expr.compile(out, locate.Flags(uses_context))
     temps = {f'{base}{i}' for base, n in out._names.items() for i in range(1, n + 1)}
     return out.source_code(), temps
 
@@ -80,10 +81,10 @@ def emit_spilled(expr, uses_context=False):
     """emit `expr` at a point where the block budget is exhausted, so that the real Expression.compile
     takes its spill path (helper function + call) for `expr` itself"""
     out = CodeBuilder()
-    translator._assign_ids([expr])
+    locate.assign_ids()([expr])
     ex.visit(expr, lambda x: x.precompile(out))
     out._num_blocks = out._max_num_blocks          # as deep as the generator allows
-    expr.compile(out, translator._Flags(uses_context))
+    expr.compile(out, locate.Flags(uses_context))
     return out.source_code()
 
 
